@@ -614,6 +614,10 @@ func fmtbytesObligs(tier string) []Oblig {
 		{Harness: "H_fmtbytes", Args: []int{1, 0}}, {Harness: "H_fmtbytes", Args: []int{2, 0}}, {Harness: "H_fmtbytes", Args: []int{3, 0}},
 		{Harness: "H_fmtbytes", Args: []int{2, 1}}, {Harness: "H_fmtbytes", Args: []int{3, 1}},
 		{Harness: "H_fmtbytes", Args: []int{2, 2}},
+		{Harness: "H_fmtbytes", Args: []int{1, 3}}, {Harness: "H_fmtbytes", Args: []int{2, 3}}, {Harness: "H_fmtbytes", Args: []int{3, 3}},
+		{Harness: "H_fmtbytes", Args: []int{1, 4}}, {Harness: "H_fmtbytes", Args: []int{2, 4}},
+		{Harness: "H_fmtbytes", Args: []int{1, 5}}, {Harness: "H_fmtbytes", Args: []int{2, 5}},
+		{Harness: "H_fmtbytes", Args: []int{1, 6}}, {Harness: "H_fmtbytes", Args: []int{2, 6}},
 	}
 	if tier == "thorough" {
 		obs = append(obs, Oblig{Harness: "H_fmtbytes", Args: []int{4, 0}}, Oblig{Harness: "H_fmtbytes", Args: []int{4, 1}}, Oblig{Harness: "H_fmtbytes", Args: []int{3, 2}})
@@ -623,6 +627,16 @@ func fmtbytesObligs(tier string) []Oblig {
 
 func wfObligs(tier string, panicViol bool) []Oblig {
 	obs := fmtbytesObligs(tier)
+	// an object reused after Reset / Take* (with an envelope open, a raw or safe mode active ...)
+	for _, variant := range []int{1, 3} {
+		for which := 0; which < 3; which++ {
+			for _, a := range []int{1, 0, 3, 8, 15, 18} {
+				for _, b := range []int{1, 0, 16} {
+					obs = append(obs, Oblig{Harness: "H_c13", Args: []int{variant, which, 1, 1, a, b}, PanicViol: panicViol})
+				}
+			}
+		}
+	}
 	obs = append(obs, escapeObligs(tier, false)...)
 	for _, o := range histObligs(tier, panicViol) {
 		if tier == "thorough" || len(o.Args) <= 2 || o.Harness == "H_hist2" || o.Args[0] == 0 {
@@ -1128,6 +1142,14 @@ func c06Obligs(tier string) []Oblig {
 		for _, code := range []int{1, 2} {
 			for _, k := range []int{0, 3, 14, 100, 106, 112} {
 				obs = append(obs, Oblig{Harness: "H_c06", Args: []int{code, k, 0, 1, pre}, PoolMode: 1})
+			}
+		}
+	}
+	// with an error hook installed
+	for _, code := range []int{1, 2, 12, 21} {
+		for _, k := range []int{31, 33, 52, 44, 0} {
+			for _, d := range []int{0, 1, 3} {
+				obs = append(obs, Oblig{Harness: "H_c06", Args: []int{code, k, d, 1, 0, 1}})
 			}
 		}
 	}
